@@ -160,6 +160,8 @@ func fbb.writeSecureLoginResponse(w, response) (err)
 func fbb.writeSID(w, appName, appVersion) (err)
   props C05
   call fmt.Fprintf requires format: $1 == "[%s-%s-%s]\r" && len($2) == 3 && same(unbox($2[0]), appName) && same(unbox($2[1]), appVersion)
+  # the feature field announces B2 (FBB compressed v2) and ends with '$' (BID, must be last)
+  call fmt.Fprintf requires features: streq(unbox($2[2]), "B2FHM$") || streq(unbox($2[2]), "B2FHMG$")
 
 # MID / Bytes as seen by other packages: deterministic functions of the message
 # (assumption: the message's Mid header and content are not changed between the
@@ -269,13 +271,40 @@ func fbb.(*Session).nextLineRemoteErr(s, parseErr) (line, err)
 func fbb.parseSID(str) (r, err)
   props C03
 
+# readHandshake (C05): a SID line is accepted only if it announces B2; the forwarders and
+# the challenge returned are the ones parsed from the ;FW / ;PQ lines
+ghost var gSIDParsed bool
+ghost var gB2 bool
+
+func fbb.(sid).Has(s, code) (r)
+  props C05 C03
+  functional
+
 func fbb.(*Session).readHandshake(s) (data, err)
-  props C03 C16
+  props C03 C16 C05
   requires sess: SessOK(s)
+  call fbb.parseSID set gSIDParsed := $r1 == nil
+  call fbb.(sid).Has requires b2-check [C05]: streq($1, "B2") && same($0, data.SID)
+  call fbb.(sid).Has set gB2 := $r0
+  at return requires b2-required [C05]: $r1 == nil && gSIDParsed ==> gB2
+  loop 0 invariant sid: gSIDParsed ==> gB2
+
+# handshake (C05): the master greets first (MOTD, then its handshake with no challenge) and
+# then reads; the other side reads first and answers with the challenge it was given; the
+# remote's SID and forwarder list are recorded; a handshake without SID is an error
+ghost var gReadDone bool
+ghost var gHS handshakeData
 
 func fbb.(*Session).handshake(s, rw) (err)
-  props C03
+  props C03 C05
   requires sess: SessOK(s) && rw != nil && len(s.localFW) >= 1
+  call fbb.(*Session).readHandshake set gReadDone := true
+  call fbb.(*Session).readHandshake set gHS := $r0
+  call fbb.(*Session).sendHandshake#0 requires master-greets-first [C05]: s.master && !gReadDone && $2 == ""
+  call fbb.(*Session).sendHandshake#1 requires answer-after-reading [C05]: !s.master && gReadDone && same($2, gHS.SecureChallenge)
+  call fmt.Fprintf requires motd [C05]: s.master && !gReadDone && $1 == "%s\r" && len($2) == 1
+  at return requires sid-required [C05]: $r0 == nil ==> gReadDone && len(gHS.SID) > 0 && same(s.remoteSID, gHS.SID) && same(s.remoteFW, gHS.FW)
+  loop 0 invariant greeting: !gReadDone && s.master && rw != nil && SessOK(s) && len(s.localFW) >= 1
 
 # C04: the decompressed message is returned only after the decompressor's own
 # integrity verdict (Close: CRC-16 and declared size) on the very reader that
@@ -496,6 +525,48 @@ func fbb.(*Session).handleOutbound(s, rw) (quitSent, err)
   at return requires quit-iff-fq: $r1 == nil ==> ($r0 <==> (gSentMap == nil && s.remoteNoMsgs))
   loop 0 invariant handler: s.h != nil && !gConfirmed
   loop 1 invariant handler: s.h != nil && gConfirmed
+
+# Exchange (C01/C02/C03/C05): turn loop
+#   the side that did not call (master == false) sends first; turns alternate; the loop
+#   ends when FQ was sent or received; every path that started a session closes the
+#   connection (gConnClosed); a link failure (EOF, closed connection) is reported as
+#   ErrConnLost; nil is returned only when the session is done and Close succeeded; the
+#   statistics returned are the session's.
+ghost var gConnClosed bool
+ghost var gTurnErr error
+ghost var gTurns int
+ghost var gLastWasOut bool
+
+func fbb.(*Session).Exchange(s, conn) (stats, err)
+  props C01 C02 C03 C05
+  # what NewSession establishes and the setters keep
+  requires session: s.log != nil && s.pLog != nil && s.pendingMessages != nil && len(s.localFW) >= 1 && conn != nil
+  # package-level error values keep their initial (non-nil) value: nothing in the repository assigns them
+  requires globals: ErrConnLost != nil
+  call net.Conn.Close set gConnClosed := true
+  call fbb.MBoxHandler.Prepare set gTurnErr := $r0
+  call fbb.(*Session).handshake set gTurnErr := $r0
+  call fbb.(*Session).handleOutbound set gTurnErr := $r1
+  call fbb.(*Session).handleInbound set gTurnErr := $r1
+  at return requires error-propagates [C02]: gTurnErr != nil ==> $r1 != nil
+  at return requires link-failure-is-connlost [C02]: gTurnErr != nil && (errors.Is(gTurnErr, io.EOF) || errors.Is(gTurnErr, io.ErrUnexpectedEOF) || errors.Is(gTurnErr, net.ErrClosed)) ==> $r1 == ErrConnLost
+  at return requires other-errors-unchanged [C02]: gTurnErr != nil && !(errors.Is(gTurnErr, io.EOF) || errors.Is(gTurnErr, io.ErrUnexpectedEOF) || errors.Is(gTurnErr, net.ErrClosed)) ==> $r1 == gTurnErr
+  # turn-taking: the side that is not master proposes first, then the turns alternate
+  call fbb.(*Session).handleOutbound requires first-turn [C05]: gTurns == 0 ==> !s.master
+  call fbb.(*Session).handleInbound requires first-turn [C05]: gTurns == 0 ==> s.master
+  call fbb.(*Session).handleOutbound requires alternate [C05]: gTurns > 0 ==> !gLastWasOut
+  call fbb.(*Session).handleInbound requires alternate [C05]: gTurns > 0 ==> gLastWasOut
+  call fbb.(*Session).handleOutbound set gTurns := gTurns + 1
+  call fbb.(*Session).handleInbound set gTurns := gTurns + 1
+  call fbb.(*Session).handleOutbound set gLastWasOut := true
+  call fbb.(*Session).handleInbound set gLastWasOut := false
+  loop 0 invariant turn: gTurns >= 0 && (gTurns == 0 ==> myTurn == !s.master) && (gTurns > 0 ==> myTurn == !gLastWasOut)
+  at return requires closed: gConnClosed || old(s.quitReceived || s.quitSent)
+  at return requires done-on-success: $r1 == nil ==> s.quitReceived || s.quitSent
+  loop 0 invariant session: SessOK(s)
+  loop 0 invariant fw: len(s.localFW) >= 1
+  loop 0 invariant conn: conn != nil && !gConnClosed
+  loop 0 invariant no-error: err == nil && gTurnErr == nil
 
 # outbound: exactly the remote's announced forwarders are passed to the handler (C05 fw-list);
 # invalid messages are skipped; every proposal is non-nil
